@@ -111,7 +111,11 @@ func (x *Exec) closedness(arr string, sort string, elemT types.Type, alloc strin
 	if alloc == "" {
 		return
 	}
-	refLike := comp == "arr" || (comp == "" && elemT != nil && isRefLike(elemT))
+	isGhostRef := func(t types.Type) bool {
+		b, ok := t.(*types.Basic)
+		return ok && b.Kind() == types.UnsafePointer
+	}
+	refLike := comp == "arr" || (comp == "" && elemT != nil && (isRefLike(elemT) || isGhostRef(elemT)))
 	if refLike && sort == "Int" {
 		x.ctx.Assume(fmt.Sprintf("(forall ((r Int)) (! (and (<= 0 (select %s r)) (<= (select %s r) %s)) :pattern ((select %s r))))", arr, arr, alloc, arr))
 	}
@@ -493,6 +497,9 @@ func (x *Exec) ghostType(owner *types.Named, g *GhostField) (elem types.Type, is
 		elem = types.Typ[types.Int]
 	case spec == "bool":
 		elem = types.Typ[types.Bool]
+	case spec == "ref":
+		// an untyped object reference (only compared for equality)
+		elem = types.Typ[types.UnsafePointer]
 	case strings.HasPrefix(spec, "like "):
 		fn := strings.TrimSpace(spec[5:])
 		i := fieldIndex(owner, fn)
